@@ -122,6 +122,19 @@ Section Doc.
     | _ => filter (fun p => conds_hold child p conds) (tables parent_src)
     end.
 
+  (* graphs of a statement: the graph maps of the subject map and of the predicate-object map; the default graph iff
+     there is none or rr:defaultGraph is named; a NULL graph value gives no placement *)
+  Definition graph_terms (t : tmapdef) (pm : pom) (r : srow) : list ustr :=
+    match t_sgraphs t ++ p_graphs pm with
+    | [] => [[]]
+    | gms => flat_map (fun g =>
+               if mkind_eqb (m_kind g) KConst && ueqb (m_value g) Tables.c_rml_default_graph then [[]]
+               else match spec_lex cfg (m_kind g) (m_value g) TIri [] r with
+                    | Some gl => [render TIri gl]
+                    | None => []
+                    end) gms
+    end.
+
   (* all (subject, predicate, object) triples a triples map generates for a row, and its subject terms.
      fuel bounds the nesting depth of quoted triples maps *)
   Fixpoint subj_terms (fuel : nat) (t : tmapdef) (r : srow) : list ustr :=
@@ -147,12 +160,17 @@ Section Doc.
         let poms := t_poms t ++ map class_pom (t_classes t) in
         flat_map (fun s =>
           flat_map (fun pm =>
+            (* a triple exists for the row only if it is placed in at least one graph *)
+            match graph_terms t pm r with
+            | [] => []
+            | _ =>
             flat_map (fun p =>
               match spec_lex cfg (m_kind p) (m_value p) TIri [] r with
               | None => []
               | Some pl =>
                   flat_map (fun o => map (fun ot => s ++ [32] ++ render TIri pl ++ [32] ++ ot) (obj_terms f t o r)) (p_objs pm)
-              end) (p_preds pm)) poms) (subj_terms f t r)
+              end) (p_preds pm)
+            end) poms) (subj_terms f t r)
     end
   with obj_terms (fuel : nat) (t : tmapdef) (o : objmap) (r : srow) : list ustr :=
     match fuel with
@@ -183,19 +201,6 @@ Section Doc.
     end.
 
   Definition spec_fuel : nat := (3 * S (length doc))%nat.
-
-  (* graphs of a statement: the graph maps of the subject map and of the predicate-object map; the default graph iff
-     there is none or rr:defaultGraph is named; a NULL graph value gives no placement *)
-  Definition graph_terms (t : tmapdef) (pm : pom) (r : srow) : list ustr :=
-    match t_sgraphs t ++ p_graphs pm with
-    | [] => [[]]
-    | gms => flat_map (fun g =>
-               if mkind_eqb (m_kind g) KConst && ueqb (m_value g) Tables.c_rml_default_graph then [[]]
-               else match spec_lex cfg (m_kind g) (m_value g) TIri [] r with
-                    | Some gl => [render TIri gl]
-                    | None => []
-                    end) gms
-    end.
 
   Definition asserted (t : tmapdef) : bool :=
     negb (t_nonasserted t) && negb (match t_poms t, t_classes t with [], [] => true | _, _ => false end).
